@@ -478,7 +478,10 @@ impl<'a> SubtypeChecker<'a> {
                     bail!("mismatched memory limits");
                 }
 
-                if apsl != bpsl {
+                // An absent custom page size means the default 64KiB (2^16) page size,
+                // so compare the effective page sizes.
+                const DEFAULT_PAGE_SIZE_LOG2: u32 = 16;
+                if apsl.unwrap_or(DEFAULT_PAGE_SIZE_LOG2) != bpsl.unwrap_or(DEFAULT_PAGE_SIZE_LOG2) {
                     bail!("mismatched page_size_log2 for memories");
                 }
 
